@@ -6,6 +6,7 @@ import (
 	"encoding/json"
 	"fmt"
 	"net/http"
+	"net/url"
 	"net/http/httptest"
 	"sort"
 	"strconv"
@@ -85,27 +86,43 @@ func MediaType(ct string) string {
 	return strings.ToLower(strings.TrimSpace(ct))
 }
 
-func unescape(s string) string {
+// unescape is url.QueryUnescape read independently: '+' is a space, %XX a byte; ok = false for a '%'
+// that is not followed by two hex digits.
+func unescape(s string) (string, bool) {
 	var b []byte
 	for i := 0; i < len(s); i++ {
 		switch {
 		case s[i] == '+':
 			b = append(b, ' ')
-		case s[i] == '%' && i+2 < len(s):
-			v, err := strconv.ParseUint(s[i+1:i+3], 16, 8)
-			if err != nil {
-				b = append(b, s[i])
-				continue
+		case s[i] == '%':
+			if i+3 > len(s) || hexVal(s[i+1]) < 0 || hexVal(s[i+2]) < 0 {
+				return "", false
 			}
-			b = append(b, byte(v))
+			b = append(b, byte(hexVal(s[i+1])<<4|hexVal(s[i+2])))
 			i += 2
 		default:
 			b = append(b, s[i])
 		}
 	}
-	return string(b)
+	return string(b), true
 }
 
+func hexVal(c byte) int {
+	switch {
+	case '0' <= c && c <= '9':
+		return int(c - '0')
+	case 'a' <= c && c <= 'f':
+		return int(c-'a') + 10
+	case 'A' <= c && c <= 'F':
+		return int(c-'A') + 10
+	}
+	return -1
+}
+
+// queryOf reads the raw query of the URL the way url.ParseQuery does (what req.URL.Query() gives):
+// pairs are separated by '&'; an empty pair is skipped; a pair containing ';' or an invalid escape is
+// dropped; a pair is split at its FIRST '=' (everything after it, further '=' included, is the value;
+// no '=' means an empty value); both sides are unescaped. With multiplicity, order kept per name.
 func queryOf(u string) []msggen.KV {
 	i := strings.IndexByte(u, '?')
 	if i < 0 || i == len(u)-1 {
@@ -113,14 +130,19 @@ func queryOf(u string) []msggen.KV {
 	}
 	var out []msggen.KV
 	for _, p := range strings.Split(u[i+1:], "&") {
-		if p == "" {
+		if p == "" || strings.Contains(p, ";") {
 			continue
 		}
 		k, v := p, ""
 		if j := strings.IndexByte(p, '='); j >= 0 {
 			k, v = p[:j], p[j+1:]
 		}
-		out = append(out, msggen.KV{K: unescape(k), V: unescape(v)})
+		uk, ok1 := unescape(k)
+		uv, ok2 := unescape(v)
+		if !ok1 || !ok2 {
+			continue
+		}
+		out = append(out, msggen.KV{K: uk, V: uv})
 	}
 	return sortPairs(out)
 }
@@ -351,6 +373,8 @@ func (e *ex) Do(op string) core.Result {
 		return jsonstr(t)
 	case "logmany":
 		return e.logmany(t)
+	case "query":
+		return queryOp(t)
 	}
 	return core.Result{Impl: "bad-op"}
 }
@@ -534,7 +558,7 @@ func (e *ex) hres(t []string) core.Result {
 	e.remember(ctx.ID(), en)
 	c := r.Content
 	impl := fmt.Sprintf("ok %d %s %d %s %s %d %s %s", r.Status, core.HexS(r.HTTPVersion), r.BodySize, hdrTok(r.Headers),
-		core.HexS(r.RedirectURL), c.Size, core.HexS(c.MimeType), core.Hex(c.Text))
+		core.HexS(r.RedirectURL), c.Size, core.HexS(c.MimeType), c15.BytesTok(c.Text))
 	ret := func(sig, f string, x ...interface{}) core.Result {
 		res := fail(sig, f, x...)
 		res.Impl = impl
@@ -578,7 +602,15 @@ func (e *ex) hres(t []string) core.Result {
 		return core.Result{Impl: impl}
 	}
 	want := a.Body
-	if infl != "na" && infl != "err" {
+	if strings.HasPrefix(infl, "h:") {
+		// a decoded body too big to travel in the op: the reference decoder is run here and must give
+		// what the op announces
+		want, _ = msggen.Inflate(a.Get("Content-Encoding"), a.Body)
+		if c15.BytesTok(want) != infl {
+			return core.Result{Impl: "gen-mismatch decoded body is " + c15.BytesTok(want)}
+		}
+		core.Count("hres:decoded-big")
+	} else if infl != "na" && infl != "err" {
 		want, _ = core.Unhex(infl)
 		core.Count("hres:decoded")
 	} else {
@@ -588,6 +620,9 @@ func (e *ex) hres(t []string) core.Result {
 		return ret("c16:content-undecodable-logged", "undecodable body was logged as %d bytes", len(c.Text))
 	}
 	if !bytes.Equal(c.Text, want) {
+		if len(c.Text) < len(want) && bytes.Equal(c.Text, want[:len(c.Text)]) {
+			return ret("c16:content-truncated", "content.text is the first %d bytes of the decoded body of %d bytes (content.size %d)", len(c.Text), len(want), c.Size)
+		}
 		return ret("c16:content-not-decoded-body", "content.text is %d bytes %q…, decoded body is %d bytes %q…", len(c.Text), clip(string(c.Text)), len(want), clip(string(want)))
 	}
 	if c.Size != int64(len(want)) {
@@ -847,4 +882,34 @@ func entryDiff(o, b *har.Entry) (string, bool) {
 		}
 	}
 	return "", false
+}
+
+// query <hex raw>: the tie of Model/Query.lean: (&url.URL{RawQuery: raw}).Query(), names sorted, values
+// of one name in order, against the model's parseQuery; and the independent reading queryOf.
+func queryOp(t []string) core.Result {
+	if len(t) != 2 {
+		return core.Result{Impl: "bad-op"}
+	}
+	raw, ok := core.Unhex(t[1])
+	if !ok {
+		return core.Result{Impl: "bad-op"}
+	}
+	q := (&url.URL{RawQuery: string(raw)}).Query()
+	var names []string
+	for n := range q {
+		names = append(names, n)
+	}
+	sort.Strings(names)
+	var l []msggen.KV
+	for _, n := range names {
+		for _, v := range q[n] {
+			l = append(l, msggen.KV{K: n, V: v})
+		}
+	}
+	core.Count("query")
+	impl := "query " + kvTok(l)
+	if msggen.KVString(sortPairs(l)) != msggen.KVString(queryOf("?"+string(raw))) {
+		return core.Result{Impl: impl, Sig: "c16:query-reader", Fail: fmt.Sprintf("url.ParseQuery reads %q as %s, the oracle's own reader as %s", raw, msggen.KVString(sortPairs(l)), msggen.KVString(queryOf("?"+string(raw))))}
+	}
+	return core.Result{Impl: impl}
 }
